@@ -91,6 +91,9 @@ REG_AFF(3, double, double, 150000, 2500000);
 REG_AFF(4, double, double, 150000, 2500000);
 
 // =============================================================================================
+// does an expression denote the object itself? (an operator that returns by value binds to the second overload)
+template <class M> static bool same_object(M& ret, M& obj) { return &ret == &obj; }
+template <class M> static bool same_object(M&&, M&) { return false; }
 // operator/ : A / B = A * inverse(B), B / v = inverse(B) * v, v / B = v * inverse(B), A /= B; B / s and s / B are component-wise.
 template <int N, class T> static void division(pbt::Ctx& c) {
 	T a[4][4], b[4][4], v[4] = {0, 0, 0, 0};
@@ -121,10 +124,10 @@ template <int N, class T> static void division(pbt::Ctx& c) {
 	T d[4][4], d2[4][4], mv[4], vm[4];
 	X<N, N, T>(A / Bm, d);
 	{
-		auto A2 = A; auto* ret = &(A2 /= Bm); X<N, N, T>(A2, d2);
+		auto A2 = A; const bool self1 = same_object(A2 /= Bm, A2); X<N, N, T>(A2, d2);
 		// compound operators return their left operand itself (chained forms such as (A /= B) *= C rely on it)
-		if (ret != &A2) c.failk("operator/=(mat)/returns-left-operand", "A /= B does not return a reference to A (N=%d)", N);
-		auto B4 = Bm; auto* ret2 = &(B4 /= s); if (ret2 != &B4) c.failk("operator/=(scalar)/returns-left-operand", "B /= s does not return a reference to B (N=%d)", N);
+		if (!self1) c.failk("operator/=(mat)/returns-left-operand", "A /= B does not return a reference to A (N=%d)", N);
+		auto B4 = Bm; if (!same_object(B4 /= s, B4)) c.failk("operator/=(scalar)/returns-left-operand", "B /= s does not return a reference to B (N=%d)", N);
 	}
 	{ auto t1 = Bm / GV<N, T>(v); auto t2 = GV<N, T>(v) / Bm; for (int k = 0; k < N; ++k) { mv[k] = t1[k]; vm[k] = t2[k]; } }
 	R Ba = 0; for (int cc = 0; cc < N; ++cc) for (int k = 0; k < N; ++k) if (rabs((R)a[cc][k]) > Ba) Ba = rabs((R)a[cc][k]);
